@@ -337,6 +337,12 @@ pub fn check_value_type<T: DeserializeOwned + Serialize + std::fmt::Debug>(ty: &
                 T::deserialize(val.into_deserializer()).map_err(|e: toml_edit::de::Error| e.to_string())
             })),
             ("toml::Value::try_into", toml::Value::try_from(v).map_err(|e| e.to_string()).and_then(|val| val.try_into::<T>().map_err(|e| e.to_string()))),
+            // (a table-shaped value also through toml::Table's own deserializer)
+            ("toml::Table::try_into", match toml::Value::try_from(v) {
+                Ok(toml::Value::Table(tb)) => tb.try_into::<T>().map_err(|e| e.to_string()),
+                Ok(val) => val.try_into::<T>().map_err(|e| e.to_string()),
+                Err(e) => Err(e.to_string()),
+            }),
         ] {
             match r {
                 Ok(b) if sd_eq(&record(&b), &sd) => {}
@@ -349,7 +355,10 @@ pub fn check_value_type<T: DeserializeOwned + Serialize + std::fmt::Debug>(ty: &
 }
 
 fn prop_value_roots(t: &mut Tape, st: &mut Stats) -> Result<(), Failure> {
-    match t.below(14) {
+    match t.below(16) {
+        // an Option at the root: Some(table) - also the empty table - is not None
+        14 => check_value_type("Option<Opts>", &Some(if t.chance(1, 2) { Opts { a: None, b: None, c: None, d: None, e: None, f: None } } else { g_opts(t) }), st),
+        15 => check_value_type("Option<Inner>", &Some(g_inner(t)), st),
         0 => check_value_type("NewT(i64)", &NewT(gen_int(t)), st),
         1 => check_value_type("NewStr", &NewStr(g_string(t)), st),
         2 => check_value_type("NewInner", &NewInner(g_inner(t)), st),
